@@ -104,6 +104,27 @@ func installPermute(r *core.Run) func() {
 	return func() { verifhook.PermuteBatchFn = nil }
 }
 
+// installSortedOrder: scenarios that call Build without exploring map orders (batch does that) still take the order
+// away from the Go runtime: wherever the library lets the simulator choose, the candidates come sorted. What a run
+// shows is then a function of its tape alone, also for a library whose result depends on that order.
+func installSortedOrder() func() {
+	verifhook.PermuteBatchFn = func(n int, key func(i int) [2]int, swap func(i, j int)) {
+		for i := 0; i < n; i++ {
+			m := i
+			for j := i + 1; j < n; j++ {
+				kj, km := key(j), key(m)
+				if kj[0] < km[0] || (kj[0] == km[0] && kj[1] < km[1]) {
+					m = j
+				}
+			}
+			if m != i {
+				swap(i, m)
+			}
+		}
+	}
+	return func() { verifhook.PermuteBatchFn = nil }
+}
+
 func runBatch(r *core.Run) {
 	c := r.C
 	// the caller's context is part of the deployment, not of the request: a live one, one that was cancelled before
